@@ -23,6 +23,11 @@ theorem consts_ok_db_lookup_guards :
     Generated.CHECKSUMDB_LOOKUP_GUARDS = "path = ?1 AND mtime_secs = ?2 AND mtime_nanos = ?3 AND size = ?4" := by
   decide
 
+/-- the row stored at the end of a run under the source file's (path, mtime, size) carries the checksum of that same
+    SOURCE file (`Db.store` files `contentOf` the scanned entry), whatever happened to its transfer — regenerated from
+    the store block of src/sync/mod.rs (seeded change C18b hashed the destination copy instead) -/
+theorem consts_ok_db_store_hashes_source : Generated.CHECKSUMDB_STORE_HASHED_FILE = "&file.path" := by decide
+
 /-! ### directory cache: the substitution is unreachable -/
 
 /-- one more run: the cache is updated from that run's scan -/
